@@ -17,7 +17,7 @@ RULE = ('durations: N in 1..59 + seeded 60..5000 + {100,1000,5000} x units secon
         'every value whose TIMEX is (s,e,d) produced by the DateTimeModel on all Python-supported DateTime spec inputs of 9 cultures. '
         'non-trivial = a resolved entity (generated) / a triple TIMEX with definite endpoints (monitor); distinct = distinct (culture, query, reference).')
 EXHAUSTIVE = False
-JOB_TIMEOUT = 1800
+JOB_TIMEOUT = 5400
 
 U = {'second': ('TS', 1), 'minute': ('TM', 60), 'hour': ('TH', 3600), 'day': ('D', 86400), 'week': ('W', 604800),
      'month': ('M', 2592000), 'year': ('Y', 31536000)}
